@@ -36,11 +36,14 @@ fn check(t: &mut Tape, ctx: &mut Ctx) -> CheckResult {
     if matched {
         gen::with_source_type(t, &mut gd, &fd.target_type());
     }
-    let f = Lax { q: gen::pending_pairs(t, &fd, 3, true), d: fd };
-    let g = Lax { q: gen::pending_pairs(t, &gd, 3, true), d: gd };
+    // medium cases: many more recorded identifications than nodes
+    let maxq = if ctx.medium { 2 * ctx.medium_t } else { 3 };
+    let f = Lax { q: gen::pending_pairs(t, &fd, maxq, true), d: fd };
+    let g = Lax { q: gen::pending_pairs(t, &gd, maxq, true), d: gd };
     gen::classify(&f.d, ctx);
     ctx.set_dump(format!("f = {}\ng = {}", f.pretty(), g.pretty()));
-    let (lf, lg) = (to_lax(&f), to_lax(&g));
+    // half of the operands are built through the builder calls (pairs recorded by `unify`)
+    let (lf, lg) = if t.chance(1, 2) { (to_lax_api(&f), to_lax_api(&g)) } else { (to_lax(&f), to_lax(&g)) };
     let sfm = f.strictify().expect("consistent pairs");
     let sgm = g.strictify().expect("consistent pairs");
 
